@@ -312,3 +312,25 @@ pub fn dump_container(c: &jbk::reader::Container, index_names: &[String], addres
 pub fn index_names(model: &DirModel) -> Vec<String> {
     model.stores.iter().flat_map(|s| s.windows.iter().map(|w| w.0.clone())).collect()
 }
+
+/// The dump the model predicts (same shape as `dump_container`).
+pub fn model_dump(model: &ContainerModel) -> (Dump, Vec<String>, Vec<(u16, u32)>) {
+    let mut indexes = BTreeMap::new();
+    for (si, sm) in model.dir.stores.iter().enumerate() {
+        for (name, off, cnt) in &sm.windows {
+            let entries = (0..*cnt).map(|i| sm.expected_at(off + i)).collect();
+            indexes.insert(name.clone(), (si as u32, *off as u32, *cnt as u32, entries));
+        }
+    }
+    let addresses: Vec<(u16, u32)> = model.contents.iter().map(|(a, _)| (a.pack_id.into_u16(), a.content_id.into_u32())).collect();
+    let mut contents = BTreeMap::new();
+    for (a, b) in &model.contents {
+        contents.insert(format!("{}:{}", a.pack_id.into_u16(), a.content_id.into_u32()), format!("{} {}", b.len(), blake3::hash(b).to_hex()));
+    }
+    let mut pack_ids: Vec<u16> = addresses.iter().map(|a| a.0).collect();
+    pack_ids.sort();
+    pack_ids.dedup();
+    let packs = pack_ids.iter().map(|id| (*id, model.pack_counts.get(id).copied().unwrap_or(0) as i64)).collect();
+    let dump = Dump { pack_count: 1 + model.pack_counts.len() as u16, packs, indexes, contents, check: "true".into() };
+    (dump, index_names(&model.dir), addresses)
+}
